@@ -2059,12 +2059,22 @@ func (m *machine) staticSliceInit(g *ssa.Global) (AV, bool) {
 				continue
 			}
 			var v AV
-			switch e := st.Val.(type) {
+			sv := st.Val
+			if ct, isCT := sv.(*ssa.ChangeType); isCT {
+				sv = ct.X
+			}
+			switch e := sv.(type) {
 			case *ssa.Const:
 				v = m.constVal(e)
 			case *ssa.UnOp:
 				if eg, isG := e.X.(*ssa.Global); isG && e.Op == token.MUL {
 					v = m.symbolic(eg.Pkg.Pkg.Name()+"."+eg.Name(), eg.Type().(*types.Pointer).Elem())
+				}
+			case *ssa.Function:
+				v = avFunc{fn: e} // a table of functions
+			case *ssa.MakeClosure:
+				if f, isF := e.Fn.(*ssa.Function); isF && len(e.Bindings) == 0 {
+					v = avFunc{fn: f}
 				}
 			}
 			if v == nil {
@@ -2282,4 +2292,51 @@ func (m *machine) sequenced(c *cell) (AV, bool) {
 		i = len(seq) - 1
 	}
 	return avBool{seq[i]}, true
+}
+
+// bundleArgs: for each parameter of fn that is a parameter bundle and is built, at fn's only call site, by a literal:
+// an argument whose constant fields have the values given there (the other fields stay symbolic inputs) — so that a
+// bound that moved from a local constant into `policy{maxRetries: 5}` is still the number 5 to the evaluator.
+func bundleArgs(w *World, fn *ssa.Function) map[string]func(st *State) AV {
+	out := map[string]func(st *State) AV{}
+	sites := w.callersOf(fn)
+	if len(sites) != 1 {
+		return out
+	}
+	for _, p := range fn.Params {
+		if !isBundle(p.Type()) {
+			continue
+		}
+		al := asAlloc(argOfParam(sites[0].Call.Common(), fn, p))
+		if al == nil {
+			continue
+		}
+		tab, _ := allocTable(al)
+		stt := p.Type().Underlying().(*types.Struct)
+		p := p
+		out[p.Name()] = func(st *State) AV {
+			cs := &cell{typ: p.Type(), sym: p.Name(), fields: make([]*cell, stt.NumFields())}
+			for i := 0; i < stt.NumFields(); i++ {
+				k, isC := tab[stt.Field(i).Name()].(*ssa.Const)
+				if !isC || k.Value == nil {
+					continue
+				}
+				fc := &cell{typ: stt.Field(i).Type(), have: true}
+				switch k.Value.Kind() {
+				case constant.Int:
+					n, _ := constant.Int64Val(k.Value)
+					fc.val = avInt{conc: n}
+				case constant.Bool:
+					fc.val = avBool{constant.BoolVal(k.Value)}
+				case constant.String:
+					fc.val = avStr{isC: true, conc: constant.StringVal(k.Value)}
+				default:
+					continue
+				}
+				cs.fields[i] = fc
+			}
+			return avStruct{cs}
+		}
+	}
+	return out
 }
